@@ -214,11 +214,11 @@ class ReadElementStatus(SCSICommand):
                     encode_dict(_ed, cls._import_export_descriptor_bits, _rr)
                 _r += _rr
                 if _esp["pvoltag"]:
-                    _rr = bytearray(36)
-                    _r += _rr
+                    _rr = bytearray(_ed.get("primary_volume_tag", b"")[:36])
+                    _r += _rr.ljust(36, b"\x00")
                 if _esp["avoltag"]:
-                    _rr = bytearray(36)
-                    _r += _rr
+                    _rr = bytearray(_ed.get("alternate_volume_tag", b"")[:36])
+                    _r += _rr.ljust(36, b"\x00")
                 _rr = bytearray(4)
                 _r += _rr
 
